@@ -7,7 +7,7 @@ using namespace smt;
 
 namespace ratio
 {
-    flaw::flaw(solver &slv, std::vector<resolver *> causes, const bool &exclusive) : slv(slv), position(slv.get_idl_theory().new_var()), causes(std::move(causes)), exclusive(exclusive) {}
+    flaw::flaw(solver &slv, std::vector<resolver *> causes, const bool &exclusive, const lit &condition) : slv(slv), position(slv.get_idl_theory().new_var()), causes(std::move(causes)), exclusive(exclusive), condition(condition) {}
 
     resolver *flaw::get_cheapest_resolver() const noexcept
     {
@@ -40,7 +40,9 @@ namespace ratio
             [[maybe_unused]] bool dist = slv.get_sat_core().new_clause({slv.get_idl_theory().new_distance(c->effect.position, position, -1)});
             assert(dist);
         }
-        // we initialize the phi variable as the conjunction of the causes' rho variables..
+        if (condition != TRUE_lit)
+            cs.push_back(condition);
+        // we initialize the phi variable as the conjunction of the causes' rho variables (and of the flaw's own condition)..
         phi = slv.get_sat_core().new_conj(std::move(cs));
     }
 
